@@ -141,6 +141,16 @@ func (w *wInterp) expr(e ast.Expr) wv {
 			return a - b
 		case token.MUL:
 			return a * b
+		case token.QUO:
+			if b == 0 {
+				return w.bad("division by zero in %s", cx(e))
+			}
+			return a / b
+		case token.REM:
+			if b == 0 {
+				return w.bad("division by zero in %s", cx(e))
+			}
+			return a % b
 		case token.LSS:
 			return a < b
 		case token.LEQ:
@@ -351,17 +361,22 @@ func (w *wInterp) stmt(s ast.Stmt) wOutcome {
 				v = tu[0]
 			}
 			switch t.Tok {
-			case token.ADD_ASSIGN, token.SUB_ASSIGN:
+			case token.ADD_ASSIGN, token.SUB_ASSIGN, token.MUL_ASSIGN, token.QUO_ASSIGN:
 				a, ok1 := w.expr(l).(int64)
 				b, ok2 := v.(int64)
-				if !ok1 || !ok2 {
+				if !ok1 || !ok2 || (t.Tok == token.QUO_ASSIGN && b == 0) {
 					w.bad("compound assignment on non-integers")
 					return wOutcome{}
 				}
-				if t.Tok == token.ADD_ASSIGN {
+				switch t.Tok {
+				case token.ADD_ASSIGN:
 					v = a + b
-				} else {
+				case token.SUB_ASSIGN:
 					v = a - b
+				case token.MUL_ASSIGN:
+					v = a * b
+				default:
+					v = a / b
 				}
 			}
 			w.assign(l, v, define)
